@@ -57,11 +57,13 @@ func init() {
 			return vexp.Bounds{P: 1, F: 1, E: 0}
 		},
 		Configs: func(thorough bool) []map[string]int {
-			return []map[string]int{{"window": 4, "rounds": 2, "threads": 2}, {"window": 16 << 20, "rounds": 2, "threads": 2}}
+			return []map[string]int{{"window": 4, "rounds": 2, "threads": 2}, {"window": 16 << 20, "rounds": 2, "threads": 2}, {"window": 16 << 20, "rounds": 2, "threads": 2, "herr": 1}}
 		},
-		Doc: "one connection; G threads each run 'open channel, send with window traffic (blocked Send woken by a window update), receive the echo, close' for several rounds, so channel states go through the LIFO pool between users; every newly acquired state (client side and server side) must equal a fresh one (window, counters, wake-up slot, flags, queue, context); every echo must be the caller's own message",
+		Doc: "one connection; G threads each run 'open channel, send with window traffic (blocked Send woken by a window update), receive the echo, close' for several rounds, so channel states go through the LIFO pool between users; every newly acquired state (client side and server side) must equal a fresh one (window, counters, wake-up slot, flags, queue, context); every echo must be the caller's own message; with herr=1 every handler run returns its own application error, which the pooled handler object must log exactly once and unchanged",
 		Body: func(x *vexp.Ctx) {
 			W := int32(x.P("window", 4))
+			herr := x.P("herr", 0) == 1
+			var wantErrs []string
 			var problems []string
 			handler := HandleFunc(func(ctx Context, ch Channel) status.Status {
 				s := ch.(*channel).unwrap()
@@ -71,10 +73,21 @@ func init() {
 				}
 				_ = queued
 				rctx := async.NoContext()
+				var first []byte
 				for {
 					m, st := ch.Receive(rctx)
 					if !st.OK() {
+						if herr {
+							// every handler run ends with its OWN application error: the pooled handler object must
+							// log exactly this status through its own connection, once
+							want := "handler failed " + string(first)
+							wantErrs = append(wantErrs, "Channel error: error: "+want)
+							return status.Errorf("%s", want)
+						}
 						return status.OK
+					}
+					if first == nil {
+						first = append([]byte{}, m...)
 					}
 					if st := ch.Send(rctx, m); !st.OK() {
 						return status.OK
@@ -123,10 +136,29 @@ func init() {
 			for _, p := range problems {
 				x.Fail(errSig(p), "%s", p)
 			}
-			for _, e := range w.log.bad() {
+			logged := w.log.bad()
+			if herr {
+				// multiset equality: every handler's own error exactly once, nothing else
+				rest := append([]string{}, logged...)
+				for _, want := range wantErrs {
+					found := false
+					for i, e := range rest {
+						if e == want {
+							rest = append(rest[:i], rest[i+1:]...)
+							found = true
+							break
+						}
+					}
+					if !found {
+						x.Fail("a handler's error status was not logged as such (pooled handler object used after release?)", "missing %q; logged: %q", want, logged)
+					}
+				}
+				logged = rest
+			}
+			for _, e := range logged {
 				x.Fail("error logged: "+errSig(e), "%s", e)
 			}
-			x.Outcome = fmt.Sprintf("problems=%d", len(problems))
+			x.Outcome = fmt.Sprintf("problems=%d handler-errors=%d", len(problems), len(wantErrs))
 			w.shutdown()
 		},
 	})
